@@ -256,7 +256,7 @@ class BodyInfo:
 
 class Ctx:
     """one activation of a body"""
-    __slots__ = ("body", "info", "fid", "subst", "gargs", "depth", "returns", "stack", "enter_n")
+    __slots__ = ("body", "info", "fid", "subst", "gargs", "depth", "returns", "stack", "enter_n", "cur_site")
 
     def __init__(self, body, info, fid, subst, gargs, depth, stack):
         self.body = body
@@ -267,6 +267,7 @@ class Ctx:
         self.depth = depth
         self.returns = []
         self.stack = stack
+        self.cur_site = None
 
 
 class Call:
@@ -671,6 +672,14 @@ class Interp:
             return special, ty
         return cur, ty
 
+    def pattern_len_check(self, ctx, st, bv, need):
+        """a slice pattern reads position(s) that need `need` elements: the compiler tests the length before, so
+        this can only fail on a forced continuation (a probe of the other side of that test) - reported as a
+        definite failure there, never otherwise"""
+        site = getattr(ctx, "cur_site", None)
+        if self.recording and site is not None and isinstance(bv, SliceV) and st.entails(Aff.const(need - 1) - bv.len):
+            self.note("assert:PatternLength", site, False, "slice pattern needs %d element(s), the slice is shorter" % need, definite=True)
+
     def load(self, ctx, st, mp):
         prog = self.prog
         # element of a slice: (*_1)[_43]
@@ -688,16 +697,18 @@ class Interp:
                         return self.fresh_int(st, "elem", it, info=("elem", bv.base, bv.off + iv.aff))
                     return TopV(ety)
         # element of a slice at a constant position (slice patterns): (*_1)[2 of 4]
-        if len(ps) >= 2 and ps[-1]["k"] == "constindex" and ps[-2]["k"] == "deref" and not ps[-1].get("from_end"):
+        if len(ps) >= 2 and ps[-1]["k"] == "constindex" and ps[-2]["k"] == "deref":
             base_mp = {"l": mp["l"], "p": ps[:-2]}
             bplace, bty = self.resolve(ctx, st, base_mp)
             if isinstance(bplace, Place):
                 bv = self.ensure(st, bplace, bty, self.hint_of(ctx, bplace))
                 if isinstance(bv, SliceV):
+                    self.pattern_len_check(ctx, st, bv, int(ps[-1].get("min", 0)))
                     ety = bty[2][1] if bty and bty[0] == "ref" and bty[2][0] == "slice" else None
                     it = self.int_ty(ety)
                     if it is not None:
-                        return self.fresh_int(st, "elem", it, info=("elem", bv.base, bv.off + int(ps[-1]["off"])))
+                        ix_ = (bv.len - int(ps[-1]["off"])) if ps[-1].get("from_end") else Aff.const(int(ps[-1]["off"]))
+                        return self.fresh_int(st, "elem", it, info=("elem", bv.base, bv.off + ix_))
                     return TopV(ety)
         place, ty = self.resolve(ctx, st, mp)
         if isinstance(place, Place):
@@ -1079,6 +1090,29 @@ class Interp:
         if k == "use":
             return self.operand(ctx, st, rv["op"])
         if k == "ref":
+            ps_ = rv["place"]["p"]
+            if len(ps_) >= 2 and ps_[-1]["k"] in ("subslice", "constindex") and ps_[-2]["k"] == "deref":
+                # slice patterns: `tail @ ..` is &(*s)[from..len-to], `&x` at a fixed position an element of s
+                bplace, bty = self.resolve(ctx, st, {"l": rv["place"]["l"], "p": ps_[:-2]})
+                if isinstance(bplace, Place):
+                    bv = self.ensure(st, bplace, bty, self.hint_of(ctx, bplace))
+                    e_ = ps_[-1]
+                    if isinstance(bv, SliceV):
+                        self.pattern_len_check(ctx, st, bv, int(e_.get("min", 0)) if e_["k"] == "constindex" else int(e_["from"]) + (int(e_["to"]) if e_.get("from_end") else 0))
+                    if isinstance(bv, SliceV) and e_["k"] == "subslice":
+                        frm = int(e_["from"])
+                        if e_.get("from_end"):
+                            return SliceV(bv.len - frm - int(e_["to"]), bv.base, bv.off + frm, bv.mut)
+                        return SliceV(Aff.const(int(e_["to"]) - frm), bv.base, bv.off + frm, bv.mut)
+                    if isinstance(bv, SliceV) and e_["k"] == "constindex" and bv.base is not None:
+                        ety = bty[2][1] if bty and bty[0] == "ref" and bty[2][0] == "slice" else None
+                        it_ = self.int_ty(ety)
+                        if it_ is not None:
+                            ix = (bv.len - int(e_["off"])) if e_.get("from_end") else Aff.const(int(e_["off"]))
+                            self.nsym += 1
+                            key_ = ("h", "elem*%d" % self.nsym)
+                            st.cells[key_] = self.fresh_int(st, "elem", it_, info=("elem", bv.base, bv.off + ix))
+                            return RefV(Place(key_), rv["mut"])
             place, ty = self.resolve(ctx, st, rv["place"])
             if isinstance(place, Place):
                 if ty is not None and ty[0] in ("slice", "str"):
@@ -1188,6 +1222,7 @@ class Interp:
                 site = {"fn": ctx.body["path"], "id": ctx.body["id"], "bb": bi, "si": si,
                         "file": sp.get("cf", sp["f"]) if "exp" in sp else sp["f"],
                         "line": sp.get("cl", sp["l"]) if "exp" in sp else sp["l"], "stack": ctx.stack}
+            ctx.cur_site = site
             v = self.rvalue(ctx, st, s["rv"], dty, site)
             if self.store_hooks and self.recording:
                 tp, _ = self.resolve(ctx, st, mp)
